@@ -217,12 +217,19 @@ Definition find_method (name : string) : option method :=
 Definition base_url (configured : str) : str :=
   match configured with [] => lit c_BaseURL | _ => configured end.
 
+Fixpoint kinds_eqb (a b : list string) : bool :=
+  match a, b with
+  | [], [] => true
+  | x :: a', y :: b' => String.eqb x y && kinds_eqb a' b'
+  | _, _ => false
+  end.
+
 (* the URL string a call hands to getFromAPI; [configured] is Datasource.BaseURL *)
 Definition url_of (configured : str) (ep : endpoint) : res str :=
   match find_method (method_name ep) with
   | None => Bad
   | Some m =>
-      if list_eq_dec string_dec (m_params m) (map pkind (params_of ep)) then
+      if kinds_eqb (m_params m) (map pkind (params_of ep)) then
         rbind (eval apply_opt
                  {| e_base := base_url configured; e_params := params_of ep; e_opt := None |}
                  (m_url m)) as_str
